@@ -33,7 +33,7 @@ static void z_build(Z *z, uint32_t size, uint64_t d0, uint64_t d1){
 #define IN2(lim) (Z_OK(self, lim) && Z_OK(x, lim))
 
 /* ================================================================== construction, copy, move, destruction */
-//@check id=z_ctor0 fn=_ZN4ikos8z_numberC2Ev props=C20 backends=z3,minisat,cvc5 first_timeout=60
+//@check id=z_ctor0 fn=_ZN4ikos8z_numberC2Ev props=C20 backends=minisat,z3,cvc5 first_timeout=60
 void _ZN4ikos8z_numberC2Ev(Z *self)
 __CPROVER_requires(FRESH(z_ctor0, self, sizeof(Z)))
 __CPROVER_assigns(*self)
@@ -41,7 +41,7 @@ __CPROVER_ensures(ZOUT(self) && Z_OK(self, ZLIM) && ZV(self) == 0);
 void h_z_ctor0(void){ Z r; _ZN4ikos8z_numberC2Ev(&r); REACH; }
 
 /* z_number(int64_t): exact for every int64, INT64_MIN included */
-//@check id=z_ctor_i64 fn=_ZN4ikos8z_numberC2El props=C20 backends=z3,minisat,cvc5 first_timeout=60
+//@check id=z_ctor_i64 fn=_ZN4ikos8z_numberC2El props=C20 backends=minisat,z3,cvc5 first_timeout=60
 void _ZN4ikos8z_numberC2El(Z *self, uint64_t n)
 __CPROVER_requires(FRESH(z_ctor_i64, self, sizeof(Z)))
 __CPROVER_assigns(*self)
@@ -49,7 +49,7 @@ __CPROVER_ensures(ZOUT(self) && Z_OK(self, ZLIM) && ZV(self) == (i128)(int64_t)n
 void h_z_ctor_i64(void){ Z r; GHOST(uint64_t, n); _ZN4ikos8z_numberC2El(&r, n); REACH; }
 
 /* from_uint64: exact for every uint64 (values >= 2^63 stay positive) */
-//@check id=z_from_u64 fn=_ZN4ikos8z_number11from_uint64Em props=C20 backends=z3,minisat,cvc5 first_timeout=60
+//@check id=z_from_u64 fn=_ZN4ikos8z_number11from_uint64Em props=C20 backends=minisat,z3,cvc5 first_timeout=60
 void _ZN4ikos8z_number11from_uint64Em(Z *ret, uint64_t n)
 __CPROVER_requires(FRESH(z_from_u64, ret, sizeof(Z)))
 __CPROVER_assigns(*ret)
@@ -57,7 +57,7 @@ __CPROVER_ensures(ZOUT(ret) && Z_OK(ret, ZLIM) && ZV(ret) == (i128)(u128)n);
 void h_z_from_u64(void){ Z r; GHOST(uint64_t, n); _ZN4ikos8z_number11from_uint64Em(&r, n); REACH; }
 
 /* copy constructor: same value, own limb array, source untouched */
-//@check id=z_copy fn=_ZN4ikos8z_numberC2ERKS0_ props=C20 backends=z3,minisat,cvc5 first_timeout=60
+//@check id=z_copy fn=_ZN4ikos8z_numberC2ERKS0_ props=C20 backends=minisat,z3,cvc5 first_timeout=60
 void _ZN4ikos8z_numberC2ERKS0_(Z *self, Z *x)
 __CPROVER_requires(FRESH(z_copy, self, sizeof(Z)) && ZFRESH(z_copy, x) && Z_OK(x, ZLIM))
 __CPROVER_assigns(*self)
@@ -65,7 +65,7 @@ __CPROVER_ensures(ZOUT(self) && MP(self)->f2 != MP(x)->f2 && Z_OK(self, ZLIM) &&
 void h_z_copy(void){ Z r; INZ(b); _ZN4ikos8z_numberC2ERKS0_(&r, &b); REACH; }
 
 /* move constructor: the value (and the limb array) moves, the source becomes a valid zero with an array of its own */
-//@check id=z_move fn=_ZN4ikos8z_numberC2EOS0_ props=C20 backends=z3,minisat,cvc5 first_timeout=60
+//@check id=z_move fn=_ZN4ikos8z_numberC2EOS0_ props=C20 backends=minisat,z3,cvc5 first_timeout=60
 void _ZN4ikos8z_numberC2EOS0_(Z *self, Z *x)
 __CPROVER_requires(FRESH(z_move, self, sizeof(Z)) && ZFRESH(z_move, x) && Z_OK(x, ZLIM))
 __CPROVER_assigns(*self, *x)
@@ -74,18 +74,18 @@ __CPROVER_ensures(ZOUT(x) && MP(x)->f2 != MP(self)->f2 && Z_OK(x, ZLIM) && ZV(x)
 void h_z_move(void){ Z r; INZ(b); _ZN4ikos8z_numberC2EOS0_(&r, &b); REACH; }
 
 /* copy assignment: value copied into the existing object, returns *this */
-//@check id=z_assign fn=_ZN4ikos8z_numberaSERKS0_ props=C20 backends=z3,minisat,cvc5 first_timeout=60
+//@check id=z_assign fn=_ZN4ikos8z_numberaSERKS0_ props=C20 backends=minisat,z3,cvc5 first_timeout=60
 Z *_ZN4ikos8z_numberaSERKS0_(Z *self, Z *x)
 __CPROVER_requires(ZFRESH(z_assign, self) && ZFRESH(z_assign, x) && IN2(ZLIM))
 __CPROVER_assigns(*self, ZLIMBS(self))
 __CPROVER_ensures(RET == self && Z_OK(self, ZLIM) && ZV(self) == ZV(x) && (self == x || MP(self)->f2 != MP(x)->f2) && MP(self)->f2 == OLD(MP(self)->f2));
 void h_z_assign(void){ INZ(a); INZ(b); _ZN4ikos8z_numberaSERKS0_(&a, &b); REACH; }
 /* self assignment keeps the value */
-//@check id=z_assign_self fn=_ZN4ikos8z_numberaSERKS0_ tag=z_assign props=C20 backends=z3,minisat,cvc5 first_timeout=60
+//@check id=z_assign_self fn=_ZN4ikos8z_numberaSERKS0_ tag=z_assign props=C20 backends=minisat,z3,cvc5 first_timeout=60
 void h_z_assign_self(void){ INZ(a); __CPROVER_assume(Z_OK(&a, ZLIM)); i128 v = ZV(&a); Z *r = _ZN4ikos8z_numberaSERKS0_(&a, &a); __CPROVER_assert(r == &a && ZV(&a) == v, "x = x keeps the value"); REACH; }
 
 /* move assignment: the two values are exchanged (each object keeps owning exactly one array) */
-//@check id=z_move_assign fn=_ZN4ikos8z_numberaSEOS0_ props=C20 backends=z3,minisat,cvc5 first_timeout=60
+//@check id=z_move_assign fn=_ZN4ikos8z_numberaSEOS0_ props=C20 backends=minisat,z3,cvc5 first_timeout=60
 Z *_ZN4ikos8z_numberaSEOS0_(Z *self, Z *x)
 __CPROVER_requires(ZFRESH(z_move_assign, self) && ZFRESH(z_move_assign, x) && IN2(ZLIM))
 __CPROVER_assigns(*self, *x)
@@ -94,7 +94,7 @@ __CPROVER_ensures(MP(self)->f2 == OLD(MP(x)->f2) && MP(x)->f2 == OLD(MP(self)->f
 void h_z_move_assign(void){ INZ(a); INZ(b); _ZN4ikos8z_numberaSEOS0_(&a, &b); REACH; }
 
 /* destructor: releases exactly the limb array */
-//@check id=z_dtor fn=_ZN4ikos8z_numberD2Ev props=C20 backends=z3,minisat,cvc5 first_timeout=60
+//@check id=z_dtor fn=_ZN4ikos8z_numberD2Ev props=C20 backends=minisat,z3,cvc5 first_timeout=60
 void _ZN4ikos8z_numberD2Ev(Z *self)
 __CPROVER_requires(ZFRESH(z_dtor, self) && IN1(ZLIM))
 __CPROVER_assigns()
@@ -124,13 +124,13 @@ __CPROVER_requires(ZFRESH(z_fits_int64, self) && IN1(ZLIM))
 __CPROVER_assigns()
 __CPROVER_ensures(RET == (fits64(ZV(self)) ? 1 : 0));
 void h_z_fits_int64(void){ INZ(a); _ZNK4ikos8z_number10fits_int64Ev(&a); REACH; }
-//@check id=z_fits_sint fn=_ZNK4ikos8z_number9fits_sintEv props=C20 backends=z3,minisat,cvc5 first_timeout=60
+//@check id=z_fits_sint fn=_ZNK4ikos8z_number9fits_sintEv props=C20 backends=minisat,z3,cvc5 first_timeout=60
 unsigned char _ZNK4ikos8z_number9fits_sintEv(Z *self)
 __CPROVER_requires(ZFRESH(z_fits_sint, self) && IN1(ZLIM))
 __CPROVER_assigns()
 __CPROVER_ensures(RET == ((ZV(self) >= -P2(31) && ZV(self) < P2(31)) ? 1 : 0));
 void h_z_fits_sint(void){ INZ(a); _ZNK4ikos8z_number9fits_sintEv(&a); REACH; }
-//@check id=z_fits_slong fn=_ZNK4ikos8z_number10fits_slongEv props=C20 backends=z3,minisat,cvc5 first_timeout=60
+//@check id=z_fits_slong fn=_ZNK4ikos8z_number10fits_slongEv props=C20 backends=minisat,z3,cvc5 first_timeout=60
 unsigned char _ZNK4ikos8z_number10fits_slongEv(Z *self)
 __CPROVER_requires(ZFRESH(z_fits_slong, self) && IN1(ZLIM))
 __CPROVER_assigns()
@@ -141,7 +141,7 @@ void h_z_fits_slong(void){ INZ(a); _ZNK4ikos8z_number10fits_slongEv(&a); REACH; 
  * iff order; proved for num_words <= 2 (the model's two limbs) */
 static inline u128 raw_value(const uint64_t *w, uint64_t n, bool msf){
   return n == 0 ? (u128)0 : n == 1 ? (u128)w[0] : (msf ? (((u128)w[0] << 64) | w[1]) : (((u128)w[1] << 64) | w[0])); }
-//@check id=z_from_raw fn=_ZN4ikos8z_number13from_raw_dataEPKmmb props=C20 backends=z3,minisat,cvc5 first_timeout=60
+//@check id=z_from_raw fn=_ZN4ikos8z_number13from_raw_dataEPKmmb props=C20 backends=minisat,z3,cvc5 first_timeout=60
 void _ZN4ikos8z_number13from_raw_dataEPKmmb(Z *ret, uint64_t *data, uint64_t num_words, unsigned char order)
 __CPROVER_requires(FRESH(z_from_raw, ret, sizeof(Z)) && FRESH(z_from_raw, data, 2 * sizeof(uint64_t)) && num_words <= 2 && order <= 1)
 __CPROVER_requires(raw_value(data, num_words, order) < (u128)ZLIM)
@@ -150,7 +150,7 @@ __CPROVER_ensures(ZOUT(ret) && Z_OK(ret, ZLIM) && ZV(ret) == (i128)raw_value(dat
 struct raw2 { uint64_t w[2]; };
 void h_z_from_raw(void){ IN(struct raw2, data); GHOST(uint64_t, num_words); GHOST(unsigned char, order); Z r; _ZN4ikos8z_number13from_raw_dataEPKmmb(&r, data.w, num_words, order); REACH; }
 /* to_raw_data(num_words, sign, order): |this| as the minimal number of words (none for 0), sign = (this >= 0), in a fresh array */
-//@check id=z_to_raw fn=_ZN4ikos8z_number11to_raw_dataERmRbb props=C20 backends=z3,minisat,cvc5 first_timeout=60
+//@check id=z_to_raw fn=_ZN4ikos8z_number11to_raw_dataERmRbb props=C20 backends=minisat,z3,cvc5 first_timeout=60
 uint64_t *_ZN4ikos8z_number11to_raw_dataERmRbb(Z *self, uint64_t *num_words, uint8_t *sign, unsigned char order)
 __CPROVER_requires(ZFRESH(z_to_raw, self) && FRESH(z_to_raw, num_words, sizeof(uint64_t)) && FRESH(z_to_raw, sign, 1) && IN1(ZLIM) && order <= 1)
 __CPROVER_assigns(*num_words, *sign)
@@ -177,9 +177,9 @@ __CPROVER_ensures(RET == self && Z_OK(self, ZLIM) && MP(self)->f2 == OLD(MP(self
 void h_##tag(void){ INZ(a); INZ(b); fn(&a, &b); REACH; }
 #define OLDV OLDZ(self)
 
-//@check id=z_add fn=_ZNK4ikos8z_numberplES0_ props=C20 backends=z3,minisat,cvc5 first_timeout=60
+//@check id=z_add fn=_ZNK4ikos8z_numberplES0_ props=C20 backends=minisat,z3,cvc5 first_timeout=60
 ZBIN(z_add, _ZNK4ikos8z_numberplES0_, IN2(ZB), ZV(ret) == ZV(self) + ZV(x))
-//@check id=z_sub fn=_ZNK4ikos8z_numbermiES0_ props=C20 backends=z3,minisat,cvc5 first_timeout=60
+//@check id=z_sub fn=_ZNK4ikos8z_numbermiES0_ props=C20 backends=minisat,z3,cvc5 first_timeout=60
 ZBIN(z_sub, _ZNK4ikos8z_numbermiES0_, IN2(ZB), ZV(ret) == ZV(self) - ZV(x))
 /* multiplication: operands below 2^63 (GM_mul: see gmpmodel.c); bit-precise cross-check for operands below 2^8 in z_mul_precise */
 #ifdef GM_PRECISE
@@ -189,10 +189,10 @@ ZBIN(z_sub, _ZNK4ikos8z_numbermiES0_, IN2(ZB), ZV(ret) == ZV(self) - ZV(x))
 #define MULB ZMULB
 #define DIVB ZB
 #endif
-//@check id=z_mul fn=_ZNK4ikos8z_numbermlES0_ props=C20 backends=z3,minisat,cvc5 first_timeout=60
-//@check id=z_mul_precise fn=_ZNK4ikos8z_numbermlES0_ tag=z_mul harness=h_z_mul props=C20 defs=GM_PRECISE tier=thorough timeout=600 first_timeout=300 backends=z3,minisat,cvc5 first_timeout=60
+//@check id=z_mul fn=_ZNK4ikos8z_numbermlES0_ props=C20 backends=minisat,z3,cvc5 first_timeout=60
+//@check id=z_mul_precise fn=_ZNK4ikos8z_numbermlES0_ tag=z_mul harness=h_z_mul props=C20 defs=GM_PRECISE tier=thorough timeout=600 first_timeout=300 backends=minisat,z3,cvc5 first_timeout=60
 ZBIN(z_mul, _ZNK4ikos8z_numbermlES0_, IN2(MULB), ZV(ret) == GM_mul(ZV(self), ZV(x)))
-//@check id=z_neg fn=_ZNK4ikos8z_numberngEv props=C20 backends=z3,minisat,cvc5 first_timeout=60
+//@check id=z_neg fn=_ZNK4ikos8z_numberngEv props=C20 backends=minisat,z3,cvc5 first_timeout=60
 void _ZNK4ikos8z_numberngEv(Z *ret, Z *self)
 __CPROVER_requires(FRESH(z_neg, ret, sizeof(Z)) && ZFRESH(z_neg, self) && IN1(ZLIM))
 __CPROVER_assigns(*ret)
@@ -206,26 +206,26 @@ void h_z_neg(void){ INZ(a); Z r; _ZNK4ikos8z_numberngEv(&r, &a); REACH; }
 #else
 #define NOEXIT_DIV 1
 #endif
-//@check id=z_div fn=_ZNK4ikos8z_numberdvES0_ props=C20 allow_error=1 backends=z3,minisat,cvc5 first_timeout=60
-//@check id=z_div_noexit fn=_ZNK4ikos8z_numberdvES0_ tag=z_div harness=h_z_div props=C20 backends=z3,minisat,cvc5 first_timeout=60
-//@check id=z_div_precise fn=_ZNK4ikos8z_numberdvES0_ tag=z_div harness=h_z_div props=C20 allow_error=1 defs=GM_PRECISE tier=thorough timeout=600 first_timeout=300 backends=z3,minisat,cvc5 first_timeout=60
+//@check id=z_div fn=_ZNK4ikos8z_numberdvES0_ props=C20 allow_error=1 backends=minisat,z3,cvc5 first_timeout=60
+//@check id=z_div_noexit fn=_ZNK4ikos8z_numberdvES0_ tag=z_div harness=h_z_div props=C20 backends=minisat,z3,cvc5 first_timeout=60
+//@check id=z_div_precise fn=_ZNK4ikos8z_numberdvES0_ tag=z_div harness=h_z_div props=C20 allow_error=1 defs=GM_PRECISE tier=thorough timeout=600 first_timeout=300 backends=minisat,z3,cvc5 first_timeout=60
 ZBIN(z_div, _ZNK4ikos8z_numberdvES0_, IN2(DIVB) && NOEXIT_DIV, ZV(x) != 0 && ZV(ret) == GM_tdiv(ZV(self), ZV(x)))
-//@check id=z_rem fn=_ZNK4ikos8z_numberrmES0_ props=C20 allow_error=1 backends=z3,minisat,cvc5 first_timeout=60
-//@check id=z_rem_noexit fn=_ZNK4ikos8z_numberrmES0_ tag=z_rem harness=h_z_rem props=C20 backends=z3,minisat,cvc5 first_timeout=60
-//@check id=z_rem_precise fn=_ZNK4ikos8z_numberrmES0_ tag=z_rem harness=h_z_rem props=C20 allow_error=1 defs=GM_PRECISE tier=thorough timeout=600 first_timeout=300 backends=z3,minisat,cvc5 first_timeout=60
+//@check id=z_rem fn=_ZNK4ikos8z_numberrmES0_ props=C20 allow_error=1 backends=minisat,z3,cvc5 first_timeout=60
+//@check id=z_rem_noexit fn=_ZNK4ikos8z_numberrmES0_ tag=z_rem harness=h_z_rem props=C20 backends=minisat,z3,cvc5 first_timeout=60
+//@check id=z_rem_precise fn=_ZNK4ikos8z_numberrmES0_ tag=z_rem harness=h_z_rem props=C20 allow_error=1 defs=GM_PRECISE tier=thorough timeout=600 first_timeout=300 backends=minisat,z3,cvc5 first_timeout=60
 ZBIN(z_rem, _ZNK4ikos8z_numberrmES0_, IN2(DIVB) && NOEXIT_DIV, ZV(x) != 0 && ZV(ret) == GM_trem(ZV(self), ZV(x)))
 
-//@check id=z_add_asg fn=_ZN4ikos8z_numberpLES0_ props=C20 backends=z3,minisat,cvc5 first_timeout=60
+//@check id=z_add_asg fn=_ZN4ikos8z_numberpLES0_ props=C20 backends=minisat,z3,cvc5 first_timeout=60
 ZASG(z_add_asg, _ZN4ikos8z_numberpLES0_, IN2(ZB), ZV(self) == OLDV + ZV(x))
-//@check id=z_sub_asg fn=_ZN4ikos8z_numbermIES0_ props=C20 backends=z3,minisat,cvc5 first_timeout=60
+//@check id=z_sub_asg fn=_ZN4ikos8z_numbermIES0_ props=C20 backends=minisat,z3,cvc5 first_timeout=60
 ZASG(z_sub_asg, _ZN4ikos8z_numbermIES0_, IN2(ZB), ZV(self) == OLDV - ZV(x))
-//@check id=z_mul_asg fn=_ZN4ikos8z_numbermLES0_ props=C20 backends=z3,minisat,cvc5 first_timeout=60
+//@check id=z_mul_asg fn=_ZN4ikos8z_numbermLES0_ props=C20 backends=minisat,z3,cvc5 first_timeout=60
 ZASG(z_mul_asg, _ZN4ikos8z_numbermLES0_, IN2(MULB), ZV(self) == GM_mul(OLDV, ZV(x)))
-//@check id=z_div_asg fn=_ZN4ikos8z_numberdVES0_ props=C20 allow_error=1 backends=z3,minisat,cvc5 first_timeout=60
-//@check id=z_div_asg_noexit fn=_ZN4ikos8z_numberdVES0_ tag=z_div_asg harness=h_z_div_asg props=C20 backends=z3,minisat,cvc5 first_timeout=60
+//@check id=z_div_asg fn=_ZN4ikos8z_numberdVES0_ props=C20 allow_error=1 backends=minisat,z3,cvc5 first_timeout=60
+//@check id=z_div_asg_noexit fn=_ZN4ikos8z_numberdVES0_ tag=z_div_asg harness=h_z_div_asg props=C20 backends=minisat,z3,cvc5 first_timeout=60
 ZASG(z_div_asg, _ZN4ikos8z_numberdVES0_, IN2(DIVB) && NOEXIT_DIV, ZV(x) != 0 && ZV(self) == GM_tdiv(OLDV, ZV(x)))
-//@check id=z_rem_asg fn=_ZN4ikos8z_numberrMES0_ props=C20 allow_error=1 backends=z3,minisat,cvc5 first_timeout=60
-//@check id=z_rem_asg_noexit fn=_ZN4ikos8z_numberrMES0_ tag=z_rem_asg harness=h_z_rem_asg props=C20 backends=z3,minisat,cvc5 first_timeout=60
+//@check id=z_rem_asg fn=_ZN4ikos8z_numberrMES0_ props=C20 allow_error=1 backends=minisat,z3,cvc5 first_timeout=60
+//@check id=z_rem_asg_noexit fn=_ZN4ikos8z_numberrMES0_ tag=z_rem_asg harness=h_z_rem_asg props=C20 backends=minisat,z3,cvc5 first_timeout=60
 ZASG(z_rem_asg, _ZN4ikos8z_numberrMES0_, IN2(DIVB) && NOEXIT_DIV, ZV(x) != 0 && ZV(self) == GM_trem(OLDV, ZV(x)))
 
 /* ++x --x (return this) and x++ x-- (return the old value) */
@@ -235,9 +235,9 @@ __CPROVER_requires(ZFRESH(tag, self) && IN1(ZB)) \
 __CPROVER_assigns(*self, ZLIMBS(self)) \
 __CPROVER_ensures(RET == self && Z_OK(self, ZLIM) && MP(self)->f2 == OLD(MP(self)->f2) && (POST)); \
 void h_##tag(void){ INZ(a); fn(&a); REACH; }
-//@check id=z_preinc fn=_ZN4ikos8z_numberppEv props=C20 backends=z3,minisat,cvc5 first_timeout=60
+//@check id=z_preinc fn=_ZN4ikos8z_numberppEv props=C20 backends=minisat,z3,cvc5 first_timeout=60
 ZPRE(z_preinc, _ZN4ikos8z_numberppEv, ZV(self) == OLDV + 1)
-//@check id=z_predec fn=_ZN4ikos8z_numbermmEv props=C20 backends=z3,minisat,cvc5 first_timeout=60
+//@check id=z_predec fn=_ZN4ikos8z_numbermmEv props=C20 backends=minisat,z3,cvc5 first_timeout=60
 ZPRE(z_predec, _ZN4ikos8z_numbermmEv, ZV(self) == OLDV - 1)
 #define ZPOSTOP(tag, fn, POST) \
 void fn(Z *ret, Z *self, uint32_t dummy) \
@@ -246,9 +246,9 @@ __CPROVER_assigns(*ret, *self, ZLIMBS(self)) \
 __CPROVER_ensures(ZOUT(ret) && MP(ret)->f2 != MP(self)->f2 && Z_OK(ret, ZLIM) && ZV(ret) == OLDV) \
 __CPROVER_ensures(Z_OK(self, ZLIM) && MP(self)->f2 == OLD(MP(self)->f2) && (POST)); \
 void h_##tag(void){ INZ(a); Z r; fn(&r, &a, 0); REACH; }
-//@check id=z_postinc fn=_ZN4ikos8z_numberppEi props=C20 backends=z3,minisat,cvc5 first_timeout=60
+//@check id=z_postinc fn=_ZN4ikos8z_numberppEi props=C20 backends=minisat,z3,cvc5 first_timeout=60
 ZPOSTOP(z_postinc, _ZN4ikos8z_numberppEi, ZV(self) == OLDV + 1)
-//@check id=z_postdec fn=_ZN4ikos8z_numbermmEi props=C20 backends=z3,minisat,cvc5 first_timeout=60
+//@check id=z_postdec fn=_ZN4ikos8z_numbermmEi props=C20 backends=minisat,z3,cvc5 first_timeout=60
 ZPOSTOP(z_postdec, _ZN4ikos8z_numbermmEi, ZV(self) == OLDV - 1)
 
 /* ================================================================== comparisons: the order of the integers */
@@ -258,26 +258,26 @@ __CPROVER_requires(ZFRESH(tag, self) && ZFRESH(tag, x) && IN2(ZLIM)) \
 __CPROVER_assigns() \
 __CPROVER_ensures(RET == ((ZV(self) OP ZV(x)) ? 1 : 0)); \
 void h_##tag(void){ INZ(a); INZ(b); fn(&a, &b); REACH; }
-//@check id=z_eq fn=_ZNK4ikos8z_numbereqES0_ props=C20 backends=z3,minisat,cvc5 first_timeout=60
+//@check id=z_eq fn=_ZNK4ikos8z_numbereqES0_ props=C20 backends=minisat,z3,cvc5 first_timeout=60
 ZCMP(z_eq, _ZNK4ikos8z_numbereqES0_, ==)
-//@check id=z_ne fn=_ZNK4ikos8z_numberneES0_ props=C20 backends=z3,minisat,cvc5 first_timeout=60
+//@check id=z_ne fn=_ZNK4ikos8z_numberneES0_ props=C20 backends=minisat,z3,cvc5 first_timeout=60
 ZCMP(z_ne, _ZNK4ikos8z_numberneES0_, !=)
-//@check id=z_lt fn=_ZNK4ikos8z_numberltES0_ props=C20 backends=z3,minisat,cvc5 first_timeout=60
+//@check id=z_lt fn=_ZNK4ikos8z_numberltES0_ props=C20 backends=minisat,z3,cvc5 first_timeout=60
 ZCMP(z_lt, _ZNK4ikos8z_numberltES0_, <)
-//@check id=z_le fn=_ZNK4ikos8z_numberleES0_ props=C20 backends=z3,minisat,cvc5 first_timeout=60
+//@check id=z_le fn=_ZNK4ikos8z_numberleES0_ props=C20 backends=minisat,z3,cvc5 first_timeout=60
 ZCMP(z_le, _ZNK4ikos8z_numberleES0_, <=)
-//@check id=z_gt fn=_ZNK4ikos8z_numbergtES0_ props=C20 backends=z3,minisat,cvc5 first_timeout=60
+//@check id=z_gt fn=_ZNK4ikos8z_numbergtES0_ props=C20 backends=minisat,z3,cvc5 first_timeout=60
 ZCMP(z_gt, _ZNK4ikos8z_numbergtES0_, >)
-//@check id=z_ge fn=_ZNK4ikos8z_numbergeES0_ props=C20 backends=z3,minisat,cvc5 first_timeout=60
+//@check id=z_ge fn=_ZNK4ikos8z_numbergeES0_ props=C20 backends=minisat,z3,cvc5 first_timeout=60
 ZCMP(z_ge, _ZNK4ikos8z_numbergeES0_, >=)
 
 /* ================================================================== bitwise: two's complement with infinite sign extension,
  * operands of ARBITRARY sign; on values below 2^125 in magnitude that is the 128-bit two's complement operation */
-//@check id=z_and fn=_ZNK4ikos8z_numberanES0_ props=C20 backends=z3,minisat,cvc5 first_timeout=60
+//@check id=z_and fn=_ZNK4ikos8z_numberanES0_ props=C20 backends=minisat,z3,cvc5 first_timeout=60
 ZBIN(z_and, _ZNK4ikos8z_numberanES0_, IN2(ZB), ZV(ret) == (ZV(self) & ZV(x)))
-//@check id=z_or fn=_ZNK4ikos8z_numberorES0_ props=C20 backends=z3,minisat,cvc5 first_timeout=60
+//@check id=z_or fn=_ZNK4ikos8z_numberorES0_ props=C20 backends=minisat,z3,cvc5 first_timeout=60
 ZBIN(z_or, _ZNK4ikos8z_numberorES0_, IN2(ZB), ZV(ret) == (ZV(self) | ZV(x)))
-//@check id=z_xor fn=_ZNK4ikos8z_numbereoES0_ props=C20 backends=z3,minisat,cvc5 first_timeout=60
+//@check id=z_xor fn=_ZNK4ikos8z_numbereoES0_ props=C20 backends=minisat,z3,cvc5 first_timeout=60
 ZBIN(z_xor, _ZNK4ikos8z_numbereoES0_, IN2(ZB), ZV(ret) == (ZV(self) ^ ZV(x)))
 
 /* ================================================================== shifts.  The amount is a z_number that the code reads with
@@ -285,7 +285,21 @@ ZBIN(z_xor, _ZNK4ikos8z_numbereoES0_, IN2(ZB), ZV(ret) == (ZV(self) ^ ZV(x)))
  *  <<  : this * 2^x exactly (model range: x < 126 and the result below 2^126)
  *  >>  : floor(this / 2^x), also for negative this (arithmetic shift), for EVERY amount 0 <= x < 2^64 */
 #define SHAMT ((uint64_t)ZV(x))
-//@check id=z_shl fn=_ZNK4ikos8z_numberlsES0_ props=C20 backends=z3,minisat,cvc5 first_timeout=60
+//@check id=z_shl fn=_ZNK4ikos8z_numberlsES0_ props=C20 backends=minisat,z3,cvc5 first_timeout=60
 ZBIN(z_shl, _ZNK4ikos8z_numberlsES0_, IN2(ZLIM) && ZV(x) >= 0 && ZV(x) < 126 && ZV(self) > -(ZLIM >> SHAMT) && ZV(self) < (ZLIM >> SHAMT), ZV(ret) == s_shl(ZV(self), SHAMT))
-//@check id=z_shr fn=_ZNK4ikos8z_numberrsES0_ props=C20 backends=z3,minisat,cvc5 first_timeout=60
+//@check id=z_shr fn=_ZNK4ikos8z_numberrsES0_ props=C20 backends=minisat,z3,cvc5 first_timeout=60
 ZBIN(z_shr, _ZNK4ikos8z_numberrsES0_, IN2(ZLIM) && ZV(x) >= 0 && ZV(x) < P2(64), ZV(ret) == s_fshr(ZV(self), SHAMT))
+
+/* ================================================================== fill_ones: smallest 2^k - 1 >= this, for this >= 0 (the source asserts
+ * this >= 0; the assert is compiled out under NDEBUG, so it is the precondition).  The loop doubles `result` until it
+ * reaches x: at most FILLBITS iterations for x < 2^FILLBITS (structural bound, unwinding assertion proved).  The loop
+ * multiplies by the z_number 2: GM_PRECISE makes that product bit-precise (a multiplication by a constant). */
+#ifndef FILLBITS
+#define FILLBITS 8
+#endif
+//@check id=z_fill_ones fn=_ZNK4ikos8z_number9fill_onesEv props=C20 defs=GM_PRECISE,FILLBITS=8 unwind=10 backends=z3,minisat,cvc5 first_timeout=200 timeout=300
+void _ZNK4ikos8z_number9fill_onesEv(Z *ret, Z *self)
+__CPROVER_requires(FRESH(z_fill_ones, ret, sizeof(Z)) && ZFRESH(z_fill_ones, self) && IN1(P2(FILLBITS)) && ZV(self) >= 0)
+__CPROVER_assigns(*ret)
+__CPROVER_ensures(ZOUT(ret) && Z_OK(ret, ZLIM) && ZV(ret) == s_fill(ZV(self)));
+void h_z_fill_ones(void){ INZ(a); Z r; _ZNK4ikos8z_number9fill_onesEv(&r, &a); REACH; }
